@@ -6,6 +6,7 @@
   Nervus.Spec.History (well-formedness and trigger predicates).
 -/
 import Nervus.Proofs.EngineReadsAgree
+import Nervus.Proofs.ReadsAgreeEqv
 namespace Nervus.Props.C06
 open Nervus Nervus.Storage
 open Nervus.GraphSpec (Graph TxOp Op Rel wellFormed txOnly noC06Trigger)
@@ -39,6 +40,33 @@ theorem refinement (c : Cfg) (h : List Op) (htx : txOnly h = true) (hwf : wellFo
   obtain ⟨⟨⟨k1, k2⟩, k3⟩, k4⟩ := hk
   exact run_sim c h {} {} Sim.empty htx hwf (by simpa using hsz) k1 k2 k3 k4
 
+/-- **C06 with compactions**: for every well-formed history of transactions (committed or dropped,
+    label operations included) and compactions — any number, anywhere — that triggers no C06 finding and
+    is `compactHistSafe` (the C05 side conditions: every compaction starts from a `compactSafe` state, no
+    removal over a store value), every read interface of the engine — with segments and property store
+    behind the runs — agrees with the Spec graph of the history.  Composition of `C05_partial_hist`
+    (compacting engine ≈ never-compacting engine) with `C06_partial` (never-compacting engine refines the
+    Spec): `run_sim_compact`, `ReadsAgree.of_eqv`. -/
+theorem C06_partial_compact (h : List Op) (hwf : wellFormed h = true) (hk : noC06Trigger h = true)
+    (hsz : histSize h ≤ labelMax) (hs : compactHistSafe Cfg.current {} h = true) :
+    ∃ s, Storage.run Cfg.current h = .ok s ∧ ReadsAgree Cfg.current s (GraphSpec.run h) := by
+  simp only [noC06Trigger, Bool.and_eq_true, Bool.not_eq_true'] at hk
+  obtain ⟨⟨⟨k1, k2⟩, k3⟩, k4⟩ := hk
+  obtain ⟨s, u, hrun, hE, hsim, _⟩ := run_sim_compact Cfg.current (by decide) (by decide) (by decide) h hs hwf hsz
+    k1 k2 k3 k4
+  exact ⟨s, hrun, ReadsAgree.of_eqv hE (hsim.reads _)⟩
+
+/-- **C06 with compactions, closes and reopens**: the same for histories that also close
+    (`checkpoint_on_close` + open) and reopen the database, under `ckptHistSafe` (the side conditions of
+    `C04_partial_ckpt`): after every such history all reads agree with the Spec graph. -/
+theorem C06_partial_ckpt (h : List Op) (hwf : wellFormed h = true) (hk : noC06Trigger h = true)
+    (hsz : histSize h ≤ labelMax) (hs : ckptHistSafe Cfg.current {} h = true) :
+    ∃ s, Storage.run Cfg.current h = .ok s ∧ ReadsAgree Cfg.current s (GraphSpec.run h) := by
+  simp only [noC06Trigger, Bool.and_eq_true, Bool.not_eq_true'] at hk
+  obtain ⟨⟨⟨k1, k2⟩, k3⟩, k4⟩ := hk
+  obtain ⟨s, u, hrun, _, hP⟩ := hist_pair h {} {} {} Pair.empty hs hwf (by simpa using hsz) k1 k2 k3 k4
+  exact ⟨s, hrun, ReadsAgree.of_eqv hP.eqv (hP.sim.reads _)⟩
+
 /-- the whole-map property read and the single-key read agree on every key, for ANY run list
     (no hypothesis at all): node and relationship versions -/
 theorem whole_map_eq_single (n : Nat) (runs : List Run) (k : Nat) :
@@ -67,6 +95,20 @@ example : txOnly hGood = true ∧ wellFormed hGood = true ∧ noC06Trigger hGood
     histSize hGood ≤ labelMax := by decide
 
 /-! ### counterexamples (the faithful model reproduces the defects; witnesses in corpus/engine/) -/
+
+/-- non-vacuity of `C06_partial_compact`: label operations, delete + re-create, parallel relationships and
+    overwrites around two compactions -/
+def hGoodCompact : List Op :=
+  [ .tx [.node 10 (some A), .node 11 none, .edge 0 R 1, .edge 0 R 1, .labelAdd 1 B, .nprop 0 K 7] true,
+    .compact,
+    .tx [.edge 1 R 1, .eprop 0 R 1 K 5, .labelDel 1 B, .labelAdd 0 B, .nprop 0 K 8] true,
+    .tx [.node 12 (some B)] false,
+    .tx [.tombEdge 1 R 1, .edge 1 R 1, .node 12 (some B), .edge 2 R 0] true,
+    .compact,
+    .tx [.nprop 2 K 1, .edge 2 R 2] true ]
+
+example : compactHistSafe Cfg.current {} hGoodCompact = true ∧ wellFormed hGoodCompact = true ∧
+    noC06Trigger hGoodCompact = true ∧ histSize hGoodCompact ≤ labelMax := by decide
 
 /-- properties of a deleted relationship reappear on a re-created one
     (identity = triple, `tombstone_edge` never tombstones the properties) -/
